@@ -19,23 +19,23 @@ def has (method helper : String) : Bool :=
 /-- operations whose read closure is `expectZeroSize((&response).readFrom(&c.rbuf, size))`, error codes checked after -/
 def simpleOp (method : String) (prog : List Step) (skip : List Int := []) : OpSpec :=
   { parse := fun _ => prog, drain := has method "discardOnKafkaError", expectZero := has method "expectZeroSize",
-    post := .firstErr skip, closeOnErr := has "do" "Close" }
+    post := .firstErr skip, closeOnErr := has "do" "Close" && doClosesNonKafka }
 
 def specOf : String → Option OpSpec
   | "listOffsets" => some { parse := fun _ => readOffsetClosure partitionOffsetV1,
                             drain := has "readOffset" "discardOnKafkaError", expectZero := has "readOffset" "expectZeroSize",
-                            post := .none, closeOnErr := has "do" "Close" }
+                            post := .none, closeOnErr := has "do" "Close" && doClosesNonKafka }
   | "produce" => some { parse := fun v => produceClosure (if v ≥ 7 then produceResponsePartitionV7 else produceResponsePartitionV2),
                         drain := has "writeCompressedMessages" "discardOnKafkaError",
                         expectZero := has "writeCompressedMessages" "expectZeroSize",
-                        post := .none, closeOnErr := has "do" "Close" }
+                        post := .none, closeOnErr := has "do" "Close" && doClosesNonKafka }
   | "metadata" => some { parse := fun v => if v ≥ 6 then metadataResponseV6 else metadataResponseV1,
                          drain := false, expectZero := has "readResponse" "expectZeroSize",
-                         post := .topicErr, closeOnErr := has "do" "Close" }
+                         post := .topicErr, closeOnErr := has "do" "Close" && doClosesNonKafka }
   | "brokers" => some { parse := fun _ => metadataResponseV1, drain := false, expectZero := has "readResponse" "expectZeroSize",
-                        post := .none, closeOnErr := has "do" "Close" }
+                        post := .none, closeOnErr := has "do" "Close" && doClosesNonKafka }
   | "controller" => some { parse := fun _ => metadataResponseV1, drain := false, expectZero := has "readResponse" "expectZeroSize",
-                           post := .none, closeOnErr := has "do" "Close" }
+                           post := .none, closeOnErr := has "do" "Close" && doClosesNonKafka }
   | "findCoordinator" => some (simpleOp "findCoordinator" findCoordinatorResponseV0)
   | "heartbeat" => some (simpleOp "heartbeat" heartbeatResponseV0)
   | "joinGroup" => some (simpleOp "joinGroup" joinGroupResponse)
@@ -48,17 +48,19 @@ def specOf : String → Option OpSpec
   | "saslAuthenticate" => some (simpleOp "saslAuthenticate" saslAuthenticateResponseV0)
   | "createTopics" => some (simpleOp "createTopics" createTopicsResponse [36])     -- TopicAlreadyExists is skipped
   | "deleteTopics" => some (simpleOp "deleteTopics" deleteTopicsResponse)
-  | "apiVersions" => some { parse := fun _ => apiVersionsParse, drain := false, expectZero := false,
-                            post := .firstErr [], closeOnErr := false }
+  | "apiVersions" => some { parse := fun _ => apiVersionsParse, drain := false, expectZero := has "ApiVersions" "expectZeroSize",
+                            post := .firstErr [], closeOnErr := has "ApiVersions" "Close" && apiVersionsClosesNonKafka }
   | _ => none
 
-/-- every operation that goes through (*Conn).do -/
+/-- every operation that goes through (*Conn).do, plus ApiVersions (its own waitResponse call; the same rules since
+the fix C11-D33: expectZeroSize, close on non-kafka errors — both regenerated facts) -/
 def doOps : List String :=
-  ["listOffsets", "produce", "metadata", "brokers", "controller", "findCoordinator", "heartbeat", "joinGroup", "leaveGroup",
+  ["apiVersions", "listOffsets", "produce", "metadata", "brokers", "controller", "findCoordinator", "heartbeat", "joinGroup", "leaveGroup",
    "listGroups", "offsetCommit", "offsetFetch", "syncGroup", "saslHandshake", "saslAuthenticate", "createTopics", "deleteTopics"]
 
-/-- ReadBatchWith skips the rest of the frame on kafka errors (regenerated fact) -/
-def fetchFixed : Bool := has "ReadBatchWith" "discardOnKafkaError"
+/-- ReadBatchWith skips the rest of the frame on kafka errors and the message set of a response at the high watermark
+(regenerated facts) -/
+def fetchFixed : Bool := has "ReadBatchWith" "discardOnKafkaError" && fetchSkipsAtWatermark
 
 /-- the syntactic condition under which `opRead` can only end non-failed with the frame fully consumed -/
 def OpSpec.good (o : OpSpec) (v : Nat) : Bool :=
